@@ -39,7 +39,7 @@ var cutPackages = map[string]bool{
 	"sync": true, "sync/atomic": true, "internal/syscall/unix": true,
 	"testing": true, "log": true, "os/signal": true, "context": true,
 	"internal/reflectlite": true, "math/rand": true, "crypto/sha256": true,
-	"regexp": true, "regexp/syntax": true, "internal/godebug": true,
+	"regexp": true, "regexp/syntax": true, "internal/godebug": true, "flag": true,
 }
 
 // packages whose init is not run at all (their globals read as zero)
@@ -238,6 +238,7 @@ var allowedCutFuncs = map[string]bool{
 	"os.NewSyscallError": true, "os.IsPathSeparator": true,
 	"time.Unix": true, "time.unixTime": true,
 	"context.Background": true, "context.TODO": true,
+	"regexp.QuoteMeta": true, "regexp.special": true, "regexp.init#1": true,
 }
 
 var allowedCutPrefixes = []string{
